@@ -273,8 +273,9 @@ Record creq := {
   cq_dir : direction;                         (* ConnectionConfig.Direction *)
   cq_given : bool * bool * bool * bool;       (* first / last / after / before written in the document at all (null counts) *)
   cq_ser_fails : bool;                        (* the cursor type is one msgpack cannot encode *)
-  cq_timeconn : bool                          (* the field is a TimeBasedConnection: the recorded call is
+  cq_timeconn : bool;                         (* the field is a TimeBasedConnection: the recorded call is
                                                  reconstructed from its EdgeGetter calls (C16 owns the range queries) *)
+  cq_getter : list (result (later (list edge))) (* ... and these are the getter's answers, in query order *)
 }.
 
 Definition mk_warg {A} (given : bool) (v : option A) : warg A :=
@@ -332,7 +333,12 @@ Definition model_args (q : creq) : args :=
 (** compare the observation with the model; [None] = agree *)
 Definition compare_conn (es : list edge) (total : Z) (q : creq) : option sexp :=
   let window := match cq_calls q with r :: _ => rc_returned r | [] => [] end in
-  let a := mk_app (cq_all q) (cq_promise q) (cq_fail q) (cq_total_fails q) es window total in
+  let a := if cq_timeconn q
+           then (* TimeBasedConnection: ResolveEdges = the model's collection of the getter's answers *)
+             {| app_has_all := false; app_all := Err EApp;
+                app_edges := fun _ _ _ => time_resolve_edges edge (cq_getter q);
+                app_total := Some (Ok total) |}
+           else mk_app (cq_all q) (cq_promise q) (cq_fail q) (cq_total_fails q) es window total in
   match accept_args (cq_dir q) (model_wargs q) with
   | None =>
       (* rejected by validation: an error, and the application is never asked *)
@@ -420,6 +426,24 @@ Definition dec_given (l : list sexp) : option (bool * bool * bool * bool) :=
 Definition dec_ser_fails (l : list sexp) : option bool :=
   match field1 "ser-fails" l with None => Some false | Some b => as_bool b end.
 
+(** ((sync|promise) edges) per EdgeGetter call; undecodable = no answers *)
+Definition dec_getter (l : list sexp) : list (result (later (list edge))) :=
+  match field1 "getter-answers" l with
+  | Some (SL gs) =>
+      match map_opt (fun g => match g with
+                              | SL [k; es] =>
+                                  match as_list_of dec_edge es with
+                                  | Some es' => if is_sym "promise" k then Some (Ok (Promise (Ok es'))) else Some (Ok (Sync es'))
+                                  | None => None
+                                  end
+                              | _ => None
+                              end) gs with
+      | Some r => r
+      | None => []
+      end
+  | _ => []
+  end.
+
 Definition dec_creq (l : list sexp) : option creq :=
   match dec_fail l with
   | None => None
@@ -443,7 +467,8 @@ Definition dec_creq (l : list sexp) : option creq :=
                                       cq_first := f'; cq_last := la'; cq_after := af'; cq_before := be';
                                       cq_apos := ap'; cq_bpos := bp'; cq_calls := cs'; cq_obs := o';
                                       cq_dir := d; cq_given := g; cq_ser_fails := sf;
-                                      cq_timeconn := is_sym "timeconn" m |}
+                                      cq_timeconn := is_sym "timeconn" m;
+                                      cq_getter := dec_getter l |}
                           | _, _, _ => None
                           end
                       | _, _, _, _ => None
